@@ -379,6 +379,8 @@ func (c *Cluster) dagReplay(variants int) {
 		return
 	}
 	c.stats.probe("dagreplay-dag")
+	c.trace.add(fmt.Sprintf("dag:%s:%d", c.dagShape(), len(ref.sn.app.log)))
+	c.stats.BlocksDelivered += len(ref.sn.app.log)
 	c.stats.probeMax("dagreplay-events-max", len(base))
 	c.encodingChecksFinal(ref)
 	for vi := 0; vi < variants; vi++ {
@@ -474,6 +476,11 @@ func (c *Cluster) dagReplay(variants int) {
 				}
 			}
 		}
+		ld := ""
+		if l := v.sn.app.log; len(l) > 0 {
+			ld = l[len(l)-1].Digest
+		}
+		c.trace.add(fmt.Sprintf("variant:%s:%d:%s", kind, len(v.sn.app.log), ld))
 		if storeKind == "badger" {
 			c.encodingChecksBadger(v)
 		}
